@@ -266,6 +266,18 @@ def run_property(prop, tier, seed):
             mod.run_thorough(facts, res)
         except mirlib.AnchorLost as e:
             res.lost(e.rule, str(e))
+    if tier == 'thorough' and not os.environ.get('VERIF_SELFTEST'):
+        # liveness controls (DESIGN.md §7): up to three of this property's own mutants must be reported on a
+        # scratch copy of THIS tree; a control whose edit no longer applies is skipped, never failed
+        import selftest
+        for m in selftest.controls_for(prop):
+            st, msg = selftest.run_one(m)
+            if st in ('caught', 'caught-other'):
+                res.ok('control', m['id'], '', 'liveness control: seeded change "%s" is reported (%s)' % (m['desc'], msg[:100]))
+            elif st == 'skipped':
+                res.note('control %s skipped: %s' % (m['id'], msg))
+            else:
+                res.bad('control', m['id'], '', 'rule-dead: the seeded change "%s" applies to the current tree but is NOT reported (%s)' % (m['desc'], msg))
     known, _fixed = load_known()
     viols, knowns = [], []
     for inst in res.instances:
